@@ -249,7 +249,7 @@ def check_line_mapping_rule(fx, rep, rule):
     """C01.P1: the parser builds a LineMapping only for a usable range"""
     cands = []
     for p, b in fx.bodies.items():
-        if b["krate"] != "proguard" or b["kind"] != "Fn" or "::mapping::" not in p:
+        if b["krate"] != "proguard" or b["kind"] != "Fn":
             continue
         for n in F.walk(b["body"]):
             if n.get("k") == "Adt" and n["adt"].endswith("mapping::LineMapping"):
@@ -304,7 +304,10 @@ def usize_capture_vars(body, fam):
                     first = s["pat"]["fields"][0]["pat"] if s["pat"]["fields"] else None
                     if first is None or first["k"] != "Bind" or not first["ty"].startswith("std::option::Option<usize>"):
                         continue
-                    if any(F.is_call(x, "parse_usize") for x in F.walk(s["init"])):
+                    import parser_rules as _PR
+                    _PR.use(fam.fx)
+                    pu_ = _PR.rp("parse_usize")
+                    if any(x.get("k") == "Call" and "fn" in x and fam.fx.by_dp.get(x["fn"].get("dp")) == pu_ for x in F.walk(s["init"])):
                         if first["name"] not in out:
                             out.append(first["name"])
     return out
